@@ -66,7 +66,8 @@ class C13(Oracle):
             "add_ns": 4,
             "set_default": rng.choice([0, 1, 2]), "rec": 14, "add_attrs": 3,
             "set_time": 1, "add_type": 1,
-            "export": 12, "eq": 2, "unified": 2, "flattened": 1, "peek": 3, "get_record_absent": 1,
+            "export": 12, "eq": 3, "unified": 2, "flattened": 1, "peek": 3, "get_record_absent": 1,
+            "rebuild": rng.choice([0, 2]),
             "get_records": 1, "update": rng.choice([0, 1]),
             "roundtrip": rng.choice([0, 1]),
         }
